@@ -392,19 +392,31 @@ class Executor:
             for it, p in self.eval(s.iter, env, pc):
                 items = self.iterate(it)
                 states = [(env, p)]
+                broken = []
                 for item in items:
                     nxt = []
                     for (e, pp) in states:
                         e2 = dict(e)
                         self.assign(s.target, item, e2, pp)
                         for o in self.exec_block(s.body, e2, pp):
-                            if o.kind == "fall":
+                            if o.kind in ("fall", "continue"):
                                 nxt.append((o.value, o.pc))
+                            elif o.kind == "break":
+                                broken.append((o.value, o.pc))
                             else:
                                 res.append(o)
                     states = nxt
-                res += [Outcome("fall", e, pp) for e, pp in states]
+                if s.orelse:
+                    for e, pp in states:
+                        res += self.exec_block(s.orelse, e, pp)
+                else:
+                    res += [Outcome("fall", e, pp) for e, pp in states]
+                res += [Outcome("fall", e, pp) for e, pp in broken]
             return res
+        if isinstance(s, ast.Continue):
+            return [Outcome("continue", env, pc)]
+        if isinstance(s, ast.Break):
+            return [Outcome("break", env, pc)]
         if isinstance(s, ast.Try):
             # supported form: try: <body> except (KeyError, ...): <handler>  with a body that either works or raises KeyError
             outs = self.exec_block(s.body, env, pc)
@@ -1472,7 +1484,9 @@ def lib_take(ex, args, kwargs, pc):
     if axis != 0:
         raise Unsupported("take along axis != 0")
     ex.takes = getattr(ex, "takes", []) + [(a, idx)]
-    nanv = fresh_real("nan_fill")        # jnp.take's default mode fills out-of-range rows with NaN: an unconstrained value
+    # jnp.take's default mode fills out-of-range rows: NaN for inexact arrays (an unconstrained value here), the minimal
+    # integer for integer arrays
+    nanv = z3.IntVal(-INT32_MAX - 1) if a.dtype == "int" else fresh_real("nan_fill")
 
     def elem(i, *r):
         j = zint(idx.elem(i))
